@@ -3,7 +3,7 @@
  *   (a) every non-atomic access to thread-shared memory is ordered by happens-before after the previous conflicting access
  *       (vector clocks; synchronisation edges: pthread mutex / rwlock, atomics according to their IR memory order,
  *       release sequences continued by RMWs and by later stores of the same thread (C++17 rule), thread start/finish);
- *   (b) a load weaker than seq_cst may return the *previous* value of its location when the latest store is not ordered before
+ *   (b) a load that is weaker than seq_cst, or whose location was last written by a store weaker than seq_cst, may return the *previous* value of its location when the latest store is not ordered before
  *       the load by happens-before and the thread has not yet observed it (one-deep store history, coherence respected) -
  *       this exposes protocols that need the store->load ordering only seq_cst gives.
  * Not modelled (stated in DESIGN.md): load buffering / promises, consume, mixed-size accesses, histories deeper than one. */
@@ -24,6 +24,7 @@ int vp_ho_head[VP_HB_K];                      /* thread that wrote the head of t
 int vp_ho_hasprev[VP_HB_K]; uint64_t vp_ho_prev_i[VP_HB_K]; char* vp_ho_prev_p[VP_HB_K];
 unsigned vp_ho_prev_vc[VP_HB_K][VP_HT];       /* release clock of the previous value */
 unsigned vp_ho_wclk[VP_HB_K][VP_HT];          /* full clock of the writer of the latest value (for 'latest happens-before me') */
+int vp_ho_wsc[VP_HB_K];                       /* the latest store was seq_cst (only then a seq_cst load is bound to see it) */
 int vp_ho_seen[VP_HB_K];                      /* bit t: thread t has observed (read or written) the latest value */
 /* shadow of non-atomic locations */
 char* vp_hs_addr[VP_HB_M]; int vp_hs_n;
@@ -97,7 +98,7 @@ static inline void vp_hb_astore_i(char* a, uint64_t old, int order) {
   int t = vp_cur, k = vp_ho_slot(a);
   vp_ho_hasprev[k] = 1; vp_ho_prev_i[k] = old;
   for (int u = 0; u < VP_HT; u++) { vp_ho_prev_vc[k][u] = vp_ho_vc[k][u]; vp_ho_wclk[k][u] = vp_vc[t][u]; }
-  vp_ho_seen[k] = 1 << t;
+  vp_ho_seen[k] = 1 << t; vp_ho_wsc[k] = (order == VP_O_SEQ_CST);
   if (VP_IS_REL(order)) { vp_hb_release_to(k, 1); vp_ho_head[k] = t + 1; }
   else if (vp_ho_head[k] != t + 1) { for (int u = 0; u < VP_HT; u++) vp_ho_vc[k][u] = 0; vp_ho_head[k] = 0; }
 }
@@ -108,7 +109,7 @@ static inline void vp_hb_astore_p(char* a, char* old, int order) {
 static inline int vp_hb_aload(char* a, int order) {
   int t = vp_cur, k = vp_ho_slot(a);
   int stale = 0;
-  if (order != VP_O_SEQ_CST && vp_ho_hasprev[k] && !((vp_ho_seen[k] >> t) & 1)) {
+  if ((order != VP_O_SEQ_CST || !vp_ho_wsc[k]) && vp_ho_hasprev[k] && !((vp_ho_seen[k] >> t) & 1)) {
     int hb = 1;   /* does the latest store happen-before this load? */
     for (int u = 0; u < VP_HT; u++) if (vp_ho_wclk[k][u] > vp_vc[t][u]) hb = 0;
     if (!hb && (vp_nd_uchar() & 1)) stale = 1;
